@@ -174,6 +174,68 @@ Definition defaults_wellformed : bool :=
 Lemma defaults_wellformed_true : defaults_wellformed = true.
 Proof. vm_compute. reflexivity. Qed.
 
+(* ---- charge sequences: charging c1, c2, ... one after the other is charging their sum when
+   the gas suffices; otherwise the run stops with OutOfGas at the first charge that exceeds what
+   is left, with cgas = 0 and ggas reduced by the cgas the instruction started with — the
+   final state does not depend on how the total is split *)
+Lemma oog_state_after_charge s x :
+  gas_inv s -> x <= cgas s ->
+  oog_state {| cgas := cgas s - x; ggas := ggas s - x; saved := saved s |} = oog_state s.
+Proof. unfold gas_inv, oog_state. cbn [cgas ggas saved]. intros. f_equal. lia. Qed.
+
+Lemma run_charge_sequence l : forall s,
+  gas_inv s -> ggas s < U64 ->
+  run s (map Charge l) =
+  if oog_justified (cgas s) l then GOutOfGas (oog_state s)
+  else GOk {| cgas := cgas s - sum l; ggas := ggas s - sum l; saved := saved s |}.
+Proof.
+  induction l as [|x t IH]; intros s Hinv Hg; cbn [map run oog_justified sum].
+  - destruct s as [c g sv]; cbn [cgas ggas saved]. repeat rewrite N.sub_0_r. reflexivity.
+  - rewrite model_event_eq_spec by assumption. cbn [spec_event].
+    destruct (N.ltb_spec (cgas s) x); destruct (N.leb_spec x (cgas s)); try lia; cbn [to_res]; [reflexivity|].
+    set (s1 := {| cgas := cgas s - x; ggas := ggas s - x; saved := saved s |}).
+    assert (H1 : gas_inv s1) by (unfold gas_inv in *; subst s1; cbn [cgas ggas saved]; lia).
+    rewrite (IH s1 H1) by (subst s1; cbn [ggas]; lia).
+    subst s1. cbn [cgas ggas saved]. destruct (oog_justified (cgas s - x) t).
+    + rewrite oog_state_after_charge by assumption. reflexivity.
+    + f_equal. f_equal; lia.
+Qed.
+
+Lemma oog_justified_iff l : forall cg,
+  oog_justified cg l = true <-> exists xs y zs, l = (xs ++ y :: zs)%list /\ sum xs <= cg /\ cg < sum xs + y.
+Proof.
+  induction l as [|x t IH]; intros cg; cbn [oog_justified].
+  - split; [discriminate|]. intros (xs & y & zs & E & _). destruct xs; discriminate.
+  - destruct (N.ltb_spec cg x).
+    + split; [|reflexivity]. intros _. exists [], x, t. cbn [app sum]. repeat split; lia.
+    + rewrite IH. split.
+      * intros (xs & y & zs & E & A & B). exists (x :: xs), y, zs. subst. cbn [app sum]. repeat split; lia.
+      * intros (xs & y & zs & E & A & B). destruct xs as [|x' xs]; cbn [app sum] in *.
+        -- inversion E; subst. lia.
+        -- inversion E; subst. exists xs, y, zs. repeat split; lia.
+Qed.
+
+Lemma not_justified_sum l : forall cg, oog_justified cg l = false -> sum l <= cg.
+Proof.
+  induction l as [|x t IH]; intros cg; cbn [oog_justified sum]; [lia|].
+  destruct (N.ltb_spec cg x); [discriminate|]. intro E. apply IH in E. lia.
+Qed.
+
+(* the generated full charge sequences are the specified ones *)
+Lemma gen_seq_is_spec op s : In (op, s) spec_gas_seq -> nlookup op gas_seq = Some s.
+Proof.
+  unfold spec_gas_seq. cbn [In]. intros H.
+  repeat (destruct H as [H|H]; [inversion H; subst; reflexivity|]). contradiction.
+Qed.
+Lemma gen_storage_is_spec : gas_storage = spec_gas_storage.
+Proof. reflexivity. Qed.
+(* every opcode has a sequence; the multi-charge opcodes are exactly those of the spec table or storage shapes *)
+Definition seq_cover_ok : bool :=
+  forallb (fun e => match nlookup (fst e) gas_seq with Some _ => true | None => false end) gas_table &&
+  forallb (fun op => match nlookup op spec_gas_seq, nlookup op gas_storage with None, None => false | _, _ => true end) gas_more.
+Lemma seq_cover_ok_true : seq_cover_ok = true.
+Proof. vm_compute. reflexivity. Qed.
+
 (* ---- non-vacuity *)
 Example ex_state : gstate := {| cgas := 70; ggas := 1000; saved := [100; 30] |}.
 Example ex_state_inv : gas_inv ex_state /\ ggas ex_state < U64.
@@ -186,6 +248,8 @@ Example ex_credit :
   run ex_state (Call 25 :: map Charge [3; 4] ++ [Return]) = GOk {| cgas := 63; ggas := 993; saved := [100; 30] |}.
 Proof. vm_compute. reflexivity. Qed.
 Example ex_resolve : resolve (CLight 2 214) 1024 = 6 /\ resolve (CHeavy 5 3) 10 = 35.
+Proof. vm_compute. split; reflexivity. Qed.
+Example ex_seq : oog_justified 10 [3; 4; 5; 1] = true /\ oog_justified 12 [3; 4; 5] = false.
 Proof. vm_compute. split; reflexivity. Qed.
 Example ex_table : In (16, ("ADD", SelFixed "add")) gas_table.
 Proof. vm_compute. left. reflexivity. Qed.
